@@ -15,7 +15,13 @@ the enclosing signature).  The same side space carries the fields whose intended
 value (0, '', [], {}) while the signature says something else.  A fifth side space, "type wrappers", declares the
 Optional wrapper over every base type (without default: implicit None; with default None) and a Union.  Whole-group
 inputs include the *empty subset* of the fields: an empty mapping for the group (or a sub-group) in the config string
-/ object, before or after the per-field inputs, `--g={}` and `APP_G={}`.
+/ object, before or after the per-field inputs, `--g={}` and `APP_G={}`; and the *non-mapping* values: a number, a
+list or a boolean in the place of the group (config string before / after the per-field inputs, object, string).
+Two further side spaces vary the declaration itself: "spelling of the annotations" (every spelling of a generic
+annotation with forward references - quoted arguments - inside it, signature styles only; the dotted / inner styles
+get the evaluated types) and "declaration history" (the group is first declared under a key where the host parser
+already owns the option of the first leaf - refused by every style - and then, with the same class / dataclass /
+inner parser objects, under the free key).
 
 Differential oracle, no hand-written expectation: for one case the observations of the styles that declare every
 addressed option must be identical - accept/reject, typed value of `as_dict()`, key order, and the text of the
@@ -52,7 +58,10 @@ META = {
     "for groups that contain a sub-group and for every place the defaults can be given (signature, default= at the "
     "declaration, set_defaults afterwards, default instance of the enclosing signature; including intended defaults "
     "that are None / falsy), another one for the Optional wrapper over every base type and a Union; whole-group "
-    "inputs include the empty subset of the fields (empty mapping in config / object, --g={}, APP_G={}). "
+    "inputs include the empty subset of the fields (empty mapping in config / object, --g={}, APP_G={}) and "
+    "non-mapping values in the place of the group (number, list, boolean). Two side spaces vary the declaration: "
+    "every forward-reference spelling of the generic annotations, and a refused first declaration followed by the "
+    "declaration of the same objects under a free key. "
     "The space is finite and is "
     "enumerated completely, so within the bounds the verdict is exhaustive; it is a differential verdict (a defect "
     "common to all styles is invisible here and belongs to C02/C05/C06).",
@@ -174,6 +183,32 @@ VALUES = {
 APPEND_ITEM = 9  # `--g.f+=9`, {"f+": [9]}
 DICT_ITEM = ("q", 8)  # `--g.f.q=8`
 TWO_SOURCES = {"CP": "C P", "CK": "C K", "CA": "C A", "EA": "E A", "AP": "A P", "EP": "E P", "AK": "A K", "EK": "E K"}
+# whole-group inputs that are not a mapping (invalid shapes): the config string / the object carries a number, a
+# list or a boolean in the place of the group
+NON_MAPPING = {"gX3": 3, "gXL": [1, 2], "gXB": True, "gXz": 3}
+# declaration history (side space "declaration history"): `retry` = the host parser already owns an option with the
+# name of the group's first leaf under another key `h`; the group is first declared under `h` - which every style
+# must refuse - and then, with the very same class / dataclass / inner parser objects, under the free key
+HIST_KEY = "h"
+
+
+def spellings(ann):
+    """Every spelling of an annotation in which arguments of its generics are written as forward references
+    (quoted): for each argument of each subscript, either one of its own spellings or the whole argument quoted.
+    The first entry is the fully evaluated spelling (the text itself); a plain name has no other spelling."""
+    import ast
+
+    def render(node):
+        if not isinstance(node, ast.Subscript):
+            return [ast.unparse(node)]
+        sl = node.slice
+        args = list(sl.elts) if isinstance(sl, ast.Tuple) else [sl]
+        per_arg = [render(a) + [repr(ast.unparse(a))] for a in args]
+        head = ast.unparse(node.value)
+        return [f"{head}[{', '.join(combo)}]" for combo in itertools.product(*per_arg)]
+
+    return render(ast.parse(ann, mode="eval").body)
+
 
 
 def field_specs(vids, depth=0):
@@ -246,7 +281,7 @@ def _gen_namespace():
     }
 
 
-def _compile(src, name, has_sub_groups):
+def _compile(src, name, has_sub_groups):  # has_sub_groups: also set for the forward-reference spellings
     """Generated sources inherit this module's `from __future__ import annotations`: their annotations are strings,
     resolved by the library in this module's globals (Optional, List, Dict, E).  The generated classes of sub-groups
     are not module globals, so sources that refer to them are compiled with real annotation objects instead."""
@@ -291,7 +326,14 @@ def _gen_dataclass(name, fields, lines, alt, sub_alt, fact, depth=0):
     lines.append(f"@dataclasses.dataclass\nclass {name}:\n" + "".join(body) + "\n")
 
 
-def make_class(fields, dflt_mode="sig"):
+def respell(fields, spell):
+    """The field list with the annotation of field i replaced by its spelling number spell[i] (see `spellings`)."""
+    if not spell:
+        return fields
+    return [(n, vid, base, spellings(ann)[k] if ann else ann, dflt) for (n, vid, base, ann, dflt), k in zip(fields, spell)]
+
+
+def make_class(fields, dflt_mode="sig", evaluated=False):
     """A real class whose __init__ carries the annotations and defaults (sub-groups: generated dataclasses)."""
     alt, sub_alt, fact = dflt_mode in ("decl", "post"), dflt_mode != "sig", dflt_mode == "fact"
     lines, params = [], []
@@ -306,16 +348,16 @@ def make_class(fields, dflt_mode="sig"):
     body = "".join(f"        self.{n} = {n}\n" for n, *_ in fields)
     src = "".join(lines) + f"class G:\n    def __init__(self, {', '.join(params)}):\n{body}"
     ns = _gen_namespace()
-    exec(_compile(src, "<c07 generated class>", bool(lines)), ns)
+    exec(_compile(src, "<c07 generated class>", bool(lines) or evaluated), ns)
     return ns["G"]
 
 
-def make_dataclass(fields, dflt_mode="sig", with_instance=False):
+def make_dataclass(fields, dflt_mode="sig", with_instance=False, evaluated=False):
     alt, sub_alt, fact = dflt_mode in ("decl", "post"), dflt_mode != "sig", dflt_mode == "fact"
     lines = []
     _gen_dataclass("GD", fields, lines, alt, sub_alt, fact)
     ns = _gen_namespace()
-    exec(_compile("".join(lines), "<c07 generated dataclass>", len(lines) > 1), ns)
+    exec(_compile("".join(lines), "<c07 generated dataclass>", len(lines) > 1 or evaluated), ns)
     if with_instance:  # an instance that carries the intended defaults
         return ns["GD"], eval(_instance_src("GD", fields), ns)
     return ns["GD"]
@@ -352,27 +394,56 @@ def _add_plain(parser, prefix, fields, J, alt=False, inner_parsers=False, depth=
             parser.add_argument(opt, type=typ, default=value)
 
 
-def build_parser(style, fields, key, J, link=False, dflt_mode="sig"):
+class NotRefused(Exception):
+    """The first declaration of the history `retry` (over an option the host parser owns) was not refused."""
+
+
+def build_parser(style, fields, key, J, link=False, dflt_mode="sig", spell=None, hist=None):
     parser = J.ArgumentParser(prog="app", exit_on_error=False, default_env=True, env_prefix="APP")
     parser.add_argument("--cfg", action=J.ActionConfigFile)
     post = dflt_mode == "post"
-    if style == "dotted":
-        _add_plain(parser, key + ".", fields, J, alt=post)
-    elif style == "dataclass":
+    # the signature styles see the annotations in the requested spelling (forward references inside generics ...);
+    # the dotted / inner styles are given the evaluated types - they are the reference
+    sig_fields, evaluated = respell(fields, spell), bool(spell)
+    # the objects a declaration is made of are created once: a repeated declaration (history `retry`) uses the same
+    # class / dataclass / inner parser again
+    kw, cls, inner = {}, None, None
+    if style == "dataclass":
         if dflt_mode == "decl":
-            cls, instance = make_dataclass(fields, dflt_mode, with_instance=True)
-            parser.add_argument("--" + key, type=cls, default=instance)
+            cls, instance = make_dataclass(sig_fields, dflt_mode, with_instance=True, evaluated=evaluated)
+            kw = {"default": instance}
         else:
-            parser.add_argument("--" + key, type=make_dataclass(fields, dflt_mode))
+            cls = make_dataclass(sig_fields, dflt_mode, evaluated=evaluated)
     elif style == "class":
         kw = {"default": intended_defaults(fields)} if dflt_mode == "decl" else {}
-        parser.add_class_arguments(make_class(fields, dflt_mode), key, **kw)
+        cls = make_class(sig_fields, dflt_mode, evaluated=evaluated)
     elif style == "inner":
         inner = J.ArgumentParser(exit_on_error=False)
         _add_plain(inner, "", fields, J, alt=post, inner_parsers=True)
-        parser.add_argument("--" + key, action=J.ActionParser(parser=inner))
-    else:
+    elif style != "dotted":
         raise AssertionError(style)
+
+    def declare(k):
+        if style == "dotted":
+            _add_plain(parser, k + ".", fields, J, alt=post)
+        elif style == "dataclass":
+            parser.add_argument("--" + k, type=cls, **kw)
+        elif style == "class":
+            parser.add_class_arguments(cls, k, **kw)
+        else:
+            parser.add_argument("--" + k, action=J.ActionParser(parser=inner))
+
+    if hist == "retry":
+        # the host application owns the option named like the first leaf of the group under the key `h`: declaring
+        # the group there must be refused (by every style), the group then goes under the free key
+        parser.add_argument(f"--{HIST_KEY}.{leaf_paths(fields)[0][0]}", type=str, default="host")
+        try:
+            declare(HIST_KEY)
+        except Exception:
+            pass
+        else:
+            raise NotRefused(f"declaring the group over the existing option --{HIST_KEY}.{leaf_paths(fields)[0][0]} was not refused")
+    declare(key)
     if post:
         # the same defaults, given after the declaration: as one nested value under the group key where the style
         # declares that key, leaf by leaf in the dotted style (which has no key `g`)
@@ -392,11 +463,15 @@ def build_parser(style, fields, key, J, link=False, dflt_mode="sig"):
 
 # whole-group value first (gJ0 / gE0: the empty subset of the fields, `--g={}` / `APP_G={}`; gM: the config string
 # mentions the group with an empty mapping, `--cfg '{"g": {}}'`), then per-field options U A P K
-ARGS_GROUP_AFTER = ["gJ", "gJ1", "gJ0", "gE", "gE0", "gUj", "gUa", "gM"]
+ARGS_GROUP_AFTER = ["gJ", "gJ1", "gJ0", "gE", "gE0", "gUj", "gUa", "gM", "gX3", "gXL", "gXB"]
 ARGS_GROUP_CFG = ["gD", "gUc"]  # per-field options U C CP CK, all spelled inside the config string
 # gMz: per-field options U A C E first (C in a config string of its own), then a second config string that mentions
 # the group with an empty mapping
 EMPTY_SUBSET = ["gJ0", "gE0", "gM", "gMz"]  # whole-group inputs that name none of the fields
+# gX3 gXL gXB: the config string (first, then per-field U A P K) / the object carries a number / a list / a boolean
+# in the place of the group; gXz: a second config string with the number, after the per-field inputs U A C
+AFTER_FIELDS = ["gMz", "gXz"]
+OBJECT_ALONE = ["gM", "gX3", "gXL", "gXB"]  # objects that carry nothing but the whole-group value
 
 
 def field_options(vid, method, level, group="g0", role=None):
@@ -422,11 +497,11 @@ def field_options(vid, method, level, group="g0", role=None):
                 return ["U", "A"]
             if group in ARGS_GROUP_CFG:
                 return ["U", "C"]
-            if group == "gMz":
+            if group in AFTER_FIELDS:
                 return ["U", "A", "C"]
             return ["U", "A", "C", "J", "M"] + (["E", "X"] if level != "triple" else []) + (["XC"] if level == "single" else [])
         if method in ("object", "string"):
-            if group == "gM":
+            if group in OBJECT_ALONE:
                 return ["U"]
             return ["U", "O", "M"] if group != "g0" or level == "triple" else ["U", "O", "X", "M"]
         return ["U", "E"]
@@ -445,7 +520,7 @@ def field_options(vid, method, level, group="g0", role=None):
             return ["U", "A"] + (["P"] if lst else []) + (["K"] if dct else [])
         if group in ARGS_GROUP_CFG:
             return ["U", "C"] + (["CP"] if lst else []) + (["CK"] if dct else [])
-        if group == "gMz":
+        if group in AFTER_FIELDS:
             return ["U", "A", "C"] + (["E"] if level == "single" else [])
         o = ["U", "A", "C"]
         if level != "triple":
@@ -464,8 +539,8 @@ def field_options(vid, method, level, group="g0", role=None):
             o += ["CA", "EA"] + (["AP", "EP"] if lst else []) + (["AK", "EK"] if dct else [])
         return o
     if method in ("object", "string"):
-        if group == "gM":
-            return ["U", "E"] if level == "single" else ["U"]  # nothing but the empty mapping (and the environment)
+        if group in OBJECT_ALONE:
+            return ["U", "E"] if level == "single" else ["U"]  # nothing but the whole-group value (and the environment)
         if group != "g0":
             return ["U", "O"]
         if level == "triple":
@@ -492,9 +567,16 @@ def group_options(method, n_fields, level):
         # the empty subset of the fields: in the config string before the per-field inputs (every level); after
         # them, and as whole-group JSON / environment value: not on quick-tier pairs
         empty = ["gM"] + (["gMz", "gJ0", "gE0"] if level != "pair" else [])
-        return ["g0", "gJ"] + (["gJ1"] if n_fields > 1 else []) + ["gE", "gD"] + empty + unknown
+        # something that is not a mapping in the place of the group: not on quick-tier pairs
+        nonmap = ["gX3", "gXL", "gXB", "gXz"] if level != "pair" else []
+        return ["g0", "gJ"] + (["gJ1"] if n_fields > 1 else []) + ["gE", "gD"] + empty + unknown + nonmap
     if method in ("object", "string"):
-        return ["g0"] if level == "triple" else ["g0", "gD", "gM"] + (["gU"] if level != "pair" else [])
+        if level == "triple":
+            return ["g0"]
+        # the dotted-in-config spelling of an object (also enumerated for `args`) and the unknown key: not on
+        # quick-tier pairs; non-mapping values: parse_object only (parse_string is parse_object after loading)
+        deeper = ["gD", "gU"] + (["gX3", "gXL", "gXB"] if method == "object" else []) if level != "pair" else []
+        return ["g0", "gM"] + deeper
     if method == "env":
         return ["g0"] if level == "triple" else ["g0", "gE"] + (["gE0"] if level != "pair" else [])
     return ["g0"]
@@ -592,11 +674,15 @@ def render(case):
         head = []
         if group == "gUc":
             cfgd["zz"] = 1
-        if cfgd or group == "gM":
+        if group in ("gX3", "gXL", "gXB"):
+            head += ["--cfg", json.dumps(_nest(key, NON_MAPPING[group]))]
+        elif cfgd or group == "gM":
             doc = {f"{key}.{n}": x for n, x in cfgd.items()} if group == "gD" else _nest(key, cfgd)
             head += ["--cfg", json.dumps(doc)]
         if group == "gMz":
             argv += ["--cfg", json.dumps(_nest(key, {}))]
+        elif group == "gXz":
+            argv += ["--cfg", json.dumps(_nest(key, NON_MAPPING[group]))]
         if group == "gJ":
             head.append(f"--{key}=" + json.dumps(all_json))
         elif group == "gJ1":
@@ -615,7 +701,10 @@ def render(case):
     elif method in ("object", "string"):
         if group == "gU":
             obj["zz"] = 1
-        doc = {f"{key}.{n}": x for n, x in obj.items()} if group == "gD" else (_nest(key, obj) if obj or group == "gM" else {})
+        if group in NON_MAPPING:
+            doc = _nest(key, NON_MAPPING[group])
+        else:
+            doc = {f"{key}.{n}": x for n, x in obj.items()} if group == "gD" else (_nest(key, obj) if obj or group == "gM" else {})
         out["obj"] = doc
         out["text"] = json.dumps(doc)
     elif method == "env":
@@ -658,7 +747,10 @@ def observe_style(style, case):
     obs = {}
     with restored_process_state():
         try:
-            parser = build_parser(style, fields, key, J, link=bool(case.get("link")), dflt_mode=case.get("dflt", "sig"))
+            parser = build_parser(
+                style, fields, key, J, link=bool(case.get("link")), dflt_mode=case.get("dflt", "sig"),
+                spell=case.get("spell"), hist=case.get("hist"),
+            )
         except Exception as ex:  # a style that cannot even be declared is a divergence of its own
             return {"accept": f"declaration-raises:{type(ex).__name__}", "detail": str(ex)[:300]}
         if method == "interface":
@@ -760,6 +852,7 @@ def subcases(case):
     in the signature where the case has them."""
     n = len(case["fields"])
     linked, key, dflt = bool(case.get("link")), case.get("key"), case.get("dflt")
+    hist, spell = case.get("hist"), case.get("spell")
     out = []
     for size in range(1, n + 1):
         for idx in itertools.combinations(range(n), size):
@@ -769,29 +862,41 @@ def subcases(case):
                     continue  # a linked sub-case keeps the link target (the last field)
                 if not link and "S" in opts:
                     continue  # the link source exists only with the link
-                for k in [None, key] if key else [None]:
-                    for mode in dict.fromkeys(["sig", dflt]) if dflt else [None]:
-                        if not mode and size == n and link == linked and k == key:
-                            continue  # the case itself
-                        sub = {"fields": [case["fields"][i] for i in idx], "method": case["method"], "opts": opts}
-                        sub["group"] = "gJ" if case.get("group") == "gJ1" and size == 1 else case.get("group", "g0")
-                        if k:
-                            sub["key"] = k
-                        if link:
-                            sub["link"] = True
-                        if mode:
-                            if mode == "fact" and not any(v in SUBS for v in sub["fields"]):
-                                continue  # without a sub-group this is the signature mode
-                            sub["dflt"] = mode
-                        if len(applicable_styles(sub)) != len(applicable_styles(case)):
-                            continue
-                        rank = (size, link, k is not None, mode not in (None, "sig"))
-                        if mode and (any(o != "U" for o in opts) or sub["group"] != "g0"):
-                            # where the source of the defaults varies the declaration itself is a suspect: the
-                            # same group without any input comes first
-                            out.append((rank + (0,), len(out), {**sub, "opts": ["U"] * size, "group": "g0"}))
-                        if not (size == n and link == linked and k == key and mode == dflt):
-                            out.append((rank + (1,), len(out), sub))
+                variants = itertools.product(
+                    [None, key] if key else [None],
+                    dict.fromkeys(["sig", dflt]) if dflt else [None],
+                    [None, hist] if hist else [None],  # without / with the declaration history
+                    [False, True] if spell else [False],  # annotations as in the main space / in the case's spelling
+                )
+                for k, mode, h, sp in variants:
+                    same = size == n and link == linked and k == key and mode == dflt and h == hist and sp == bool(spell)
+                    if same and not mode:
+                        continue  # the case itself
+                    sub = {"fields": [case["fields"][i] for i in idx], "method": case["method"], "opts": opts}
+                    sub["group"] = "gJ" if case.get("group") == "gJ1" and size == 1 else case.get("group", "g0")
+                    if k:
+                        sub["key"] = k
+                    if link:
+                        sub["link"] = True
+                    if mode:
+                        if mode == "fact" and not any(v in SUBS for v in sub["fields"]):
+                            continue  # without a sub-group this is the signature mode
+                        sub["dflt"] = mode
+                    if h:
+                        sub["hist"] = h
+                    if sp:
+                        sub["spell"] = [spell[i] for i in idx]
+                        if not any(sub["spell"]) and any(spell):
+                            continue  # none of the kept fields is spelled with a forward reference
+                    if len(applicable_styles(sub)) != len(applicable_styles(case)):
+                        continue
+                    rank = (size, link, k is not None, mode not in (None, "sig"), h is not None, sp)
+                    if mode and (any(o != "U" for o in opts) or sub["group"] != "g0"):
+                        # where the source of the defaults varies the declaration itself is a suspect: the
+                        # same group without any input comes first
+                        out.append((rank + (0,), len(out), {**sub, "opts": ["U"] * size, "group": "g0"}))
+                    if not same:
+                        out.append((rank + (1,), len(out), sub))
     return [sub for _, _, sub in sorted(out, key=lambda t: t[:2])]
 
 
@@ -803,11 +908,32 @@ def _token(vid, opt):
     return f"{vid}/{opt}"
 
 
+def spell_class(case):
+    """Shape of the annotation spelling of a case: `eval` (real type objects throughout), `fwd-mixed` (some generic
+    has a forward reference next to an evaluated argument, None included), `fwd-all` (forward references only where
+    every argument of the generic is one)."""
+    import ast
+
+    shape = "eval"
+    for vid, k in zip(case["fields"], case["spell"]):
+        if not k:
+            continue
+        for node in ast.walk(ast.parse(spellings(VARIANTS[vid][1])[k], mode="eval")):
+            if isinstance(node, ast.Subscript):
+                args = list(node.slice.elts) if isinstance(node.slice, ast.Tuple) else [node.slice]
+                quoted = [isinstance(a, ast.Constant) for a in args]
+                if any(quoted):
+                    optional = ast.unparse(node.value) == "Optional"
+                    shape = "fwd-mixed" if not all(quoted) or optional or shape == "fwd-mixed" else "fwd-all"
+    return shape
+
+
 def signature(aspect, partition, case):
     where = "+".join(sorted(_token(v, o) for v, o in zip(case["fields"], case["opts"])))  # the witness is minimal
     group = case.get("group", "g0")
     tags = ("" if case.get("key", "g") == "g" else ":key=" + case["key"]) + (":link" if case.get("link") else "")
     tags += "" if case.get("dflt", "sig") == "sig" else ":dflt=" + case["dflt"]
+    tags += (":hist=" + case["hist"] if case.get("hist") else "") + (":ann=" + spell_class(case) if case.get("spell") else "")
     return f"{aspect}:{partition}:{case['method']}:{group}:{where}{tags}"
 
 
@@ -940,6 +1066,28 @@ def dflt_lists(quick):
     return out
 
 
+def spell_lists(quick):
+    """Side space "spelling of the annotations": [(field list, spelling number per field)].  Every variant whose
+    annotation is a generic, alone, in every spelling that contains a forward reference (quick); thorough: also the
+    fully evaluated spelling, and every pair with a plain partner (int!, int, list - spelled as evaluated types)."""
+    out = []
+    for v in NO_DEFAULT + WITH_DEFAULT + TYPE_SIDE:
+        n = len(spellings(VARIANTS[v][1]))
+        for k in range(1 if quick else 0, n) if n > 1 else []:
+            out.append(([v], [k]))
+            for partner in ["int!", "int", "list"] if not quick else []:
+                for fl, sp in (([v, partner], [k, 0]), ([partner, v], [0, k])):
+                    defaults = [VARIANTS[x][2] is not None for x in fl]
+                    if defaults == sorted(defaults):
+                        out.append((fl, sp))
+    return out
+
+
+def hist_lists(quick):
+    """Side space "declaration history": every single-field list and the sub-group (quick); all lists <= 2 (thorough)."""
+    return field_lists(1 if quick else 2) + [["sub"]] + ([] if quick else [["int", "sub"], ["sub", "int"]])
+
+
 def plan(quick):
     """Blocks; each block is the full product of per-field options and group options of one (field list, method)."""
     blocks = []
@@ -962,6 +1110,17 @@ def plan(quick):
         for m in METHODS:
             if not (m == "string" and level == "pair"):
                 blocks.append({"fields": fl, "method": m, "level": level, "key": "g"})
+    # side space: spelling of the annotations (forward references inside generics); the main space has every
+    # annotation as one string (`from __future__ import annotations`), the nested groups have evaluated ones
+    for fl, spell in spell_lists(quick):
+        for m in METHODS:
+            if m not in ("string", "env"):  # the spelling concerns the declaration: one parse method per input channel
+                blocks.append({"fields": fl, "method": m, "level": "triple", "key": "g", "spell": spell})
+    # side space: declaration history (a refused declaration, then the same objects declared under the free key)
+    for fl in hist_lists(quick):
+        for m in METHODS:
+            if m != "string":
+                blocks.append({"fields": fl, "method": m, "level": "triple", "key": "g", "hist": "retry"})
     # side space: a top-level option linked to the last field of the group
     for fl in field_lists(2):
         for m in ("interface", "args"):
@@ -989,6 +1148,10 @@ def block_cases(block):
                 case["link"] = True
             if block.get("dflt"):
                 case["dflt"] = block["dflt"]
+            if block.get("spell"):
+                case["spell"] = block["spell"]
+            if block.get("hist"):
+                case["hist"] = block["hist"]
             if group == "gD" and all(o == "U" for o in opts):
                 continue  # nothing to spell: identical to the g0 case
             if len(applicable_styles(case)) >= 2:
@@ -1027,6 +1190,14 @@ def work(block):
             count(f"opt:{o}")
         first = next(iter(obs.values()))
         acc = first["accept"]
+        if case.get("hist"):
+            count("side:hist=" + case["hist"])
+            if not any(str(o.get("accept", "")).startswith("declaration-raises") for o in obs.values()):
+                count("hist:first-declaration-refused-then-declared")
+        if case.get("spell"):
+            count("side:ann=" + spell_class(case))
+        if case["group"] in NON_MAPPING:
+            count("non-mapping:" + ("accepted" if acc == "ok" else "rejected" if acc == "reject" else "other"))
         count("outcome:" + ("accept" if acc == "ok" else "reject" if acc == "reject" else "other"))
         if any(o != "U" for o in case["opts"]) or case["group"] != "g0":
             res["nontrivial"] += 1
@@ -1114,7 +1285,7 @@ def explore(ctx):
     total = {"n": 0, "style_runs": 0, "nontrivial": 0}
     obs = set()
     devs = []
-    n_lists = len({(tuple(b["fields"]), b["key"], bool(b.get("link")), b.get("dflt")) for b in blocks})
+    n_lists = len({(tuple(b["fields"]), b["key"], bool(b.get("link")), b.get("dflt"), tuple(b.get("spell") or ()), b.get("hist")) for b in blocks})
     for res in ctx.pmap(work, blocks, chunk=4):
         for k in total:
             total[k] += res[k]
@@ -1148,6 +1319,9 @@ def explore(ctx):
             "none_or_falsy_intended_defaults": {v: f"{VARIANTS[v][2]} (signature: {ALT_DEFAULT[v]})" for v in DFLT_FALSY},
             "empty_subset_group_options": EMPTY_SUBSET + ["M (sub-group)"],
             "defaults_modes": DFLT_MODES,
+            "non_mapping_group_values": NON_MAPPING,
+            "annotation_spellings": {v: spellings(VARIANTS[v][1])[1:] for v, _ in {(fl[0], 0) for fl, _ in spell_lists(True)}},
+            "declaration_histories": ["none", "retry (refused under a key the host owns, then declared under the free key)"],
             "styles": STYLES,
             "methods": METHODS,
             "blocks": len(blocks),
@@ -1171,6 +1345,21 @@ def explore(ctx):
     ctx.require(c.get("link-source-accepted", 0) > 20, "the link source is accepted in > 20 cases")
     ctx.require(c.get("side:nested-group", 0) > 500, "> 500 cases on groups that contain a sub-group")
     ctx.require(c.get("sub-group-json-accepted", 0) > 20, "whole-sub-group JSON on --g.f is accepted in > 20 cases")
+    hist_deviates = any(":hist=" in sig for sig in ctx.deviations)
+    ctx.require(
+        c.get("side:hist=retry", 0) > 100
+        and (hist_deviates or c.get("hist:first-declaration-refused-then-declared", 0) == c.get("side:hist=retry", -1)),
+        "> 100 cases whose group was first declared over an option of the host (refused in every style) and then "
+        "under the free key",
+    )
+    ctx.require(
+        c.get("side:ann=fwd-mixed", 0) > 200 and c.get("side:ann=fwd-all", 0) > 50,
+        "> 200 cases with a forward reference next to an evaluated argument of a generic, > 50 with all arguments quoted",
+    )
+    ctx.require(
+        c.get("non-mapping:accepted", 0) + c.get("non-mapping:rejected", 0) > 300,
+        "> 300 cases with a non-mapping value in the place of the group",
+    )
     for mode in DFLT_MODES:
         ctx.require(c.get("side:dflt=" + mode, 0) > 30, f"> 30 cases with the defaults given by mode '{mode}'")
     empty_deviates = any(sig.split(":")[3] in EMPTY_SUBSET for sig in ctx.deviations if sig.count(":") > 3)
@@ -1205,5 +1394,5 @@ def explore(ctx):
         ctx.require(c.get(f"method:{m}", 0) > 0, f"method {m} exercised")
     for o in ("A", "C", "E", "X", "XC", "N", "P", "CP", "K", "CK", "CA", "EA", "AP", "EK", "O", "F", "NF", "NA", "S", "J", "M"):
         ctx.require(c.get(f"opt:{o}", 0) > 0, f"input option {o} exercised")
-    for g in ("gJ", "gJ1", "gE", "gD", "gUa", "gUc", "gUj", "gU", "gM", "gMz", "gJ0", "gE0"):
+    for g in ("gJ", "gJ1", "gE", "gD", "gUa", "gUc", "gUj", "gU", "gM", "gMz", "gJ0", "gE0", "gX3", "gXL", "gXB", "gXz"):
         ctx.require(c.get(f"group:{g}", 0) > 0, f"group option {g} exercised")
